@@ -1,6 +1,9 @@
 (* C07 — executable specification (oracle side), independent of coq/gen.
    line:  <source is const> <some route copies> <the mutator is an attempt> <errored> <object changed> <binding changed>
-   (six 0/1 flags; the first three describe the case, the last three what the implementation did) *)
+          (six 0/1 flags; the first three describe the case, the last three what the implementation did)
+      or  src <way the object was shared> <its C++ type is const> <some route copies> <attempt> <errored> <object changed> <binding changed>
+          (the specification decides whether the source is const: source_const)
+      or  reg <way the object was shared> <its C++ type is const> <registration function insists on const> <the registration was refused> *)
 From Coq Require Import ZArith List Bool String.
 From ChaiV Require Import StrUtil.
 Import ListNotations.
@@ -15,9 +18,25 @@ Definition const_verdict (is_const copied attempt errored objchg bindchg : bool)
   else if attempt && negb copied && negb errored then "VIOLATION a mutation attempt on a const object did not end in an error"
   else "OK".
 
+(* which ways of sharing an object with the engine make it const: every host entry point named const_* (chaiscript::const_var of
+   anything), any other entry point given an object whose C++ type is const (var(std::cref(x)), var of a const T pointer, a shared_ptr<const T>,
+   a const T& / const T* return or callback argument), literals, and function objects reached by name *)
+Definition source_const (way : string) (tconst : bool) : bool :=
+  prefix "const_" way || tconst || String.eqb way "literal" || String.eqb way "function".
+
+(* registration: a function for const values must take every const value and refuse every other; the others take everything *)
+Definition reg_verdict (is_const requires_const refused : bool) : string :=
+  if requires_const then
+    if is_const && refused then "VIOLATION a const value was refused by a registration function for const values"
+    else if negb is_const && negb refused then "VIOLATION a registration function for const values accepted a value that is not const"
+    else "OK"
+  else if refused then "VIOLATION a registration function without a constness requirement refused a value" else "OK".
+
 Definition flag (s : string) : bool := String.eqb s "1".
 Definition spec_line (line : string) : string :=
   match words line with
   | [a; b; c; d; e; f] => const_verdict (flag a) (flag b) (flag c) (flag d) (flag e) (flag f)
+  | ["src"; way; tc; b; c; d; e; f] => const_verdict (source_const way (flag tc)) (flag b) (flag c) (flag d) (flag e) (flag f)
+  | ["reg"; way; tc; rq; rf] => reg_verdict (source_const way (flag tc)) (flag rq) (flag rf)
   | _ => "BADCASE"
   end.
